@@ -104,6 +104,8 @@ func (e *Engine) resetPath(dec []bool) {
 	e.globals = map[*ssa.Global]*Object{}
 	e.curFn = e.curFn[:0]
 	e.outputs = 0
+	e.failSeq = 0
+	e.realSeq = 0
 }
 
 // completeThunks forces every thunk that is still unexpanded (choosing any feasible alternative)
@@ -121,7 +123,7 @@ func (e *Engine) protect(f func()) (out interface{}) {
 	defer func() {
 		if r := recover(); r != nil {
 			switch r.(type) {
-			case Infeasible, PanicEvt, stopPath:
+			case Infeasible, PanicEvt, stopPath, needRealise, realised:
 				out = r
 			default:
 				panic(r)
@@ -132,10 +134,10 @@ func (e *Engine) protect(f func()) (out interface{}) {
 	return nil
 }
 
-func (e *Engine) runPath(dec []bool, wantSample bool) (res pathResult, alts [][]bool) {
+// runOnce executes the harness once along dec and reports how it ended.
+func (e *Engine) runOnce(dec []bool, realSeq int) interface{} {
 	e.resetPath(dec)
-	e.solver.send("(push 1)")
-	defer e.solver.send("(pop 1)")
+	e.realSeq = realSeq
 	e.curFn = append(e.curFn, e.spec.fn)
 	out := e.protect(func() { e.call(e.spec.fn, nil) })
 	if pe, ok := out.(PanicEvt); ok {
@@ -144,25 +146,72 @@ func (e *Engine) runPath(dec []bool, wantSample bool) (res pathResult, alts [][]
 			out = stopPath{} // known finding or dead path: the path ends at the panic either way
 		}
 	}
+	return out
+}
+
+// realise re-runs a failing path and completes the pre-state, backtracking over completion choices.
+func (e *Engine) realise(nr needRealise, dec []bool) Failure {
+	f := nr.f
+	stack := [][]bool{append([]bool{}, dec...)}
+	for tries := 0; tries < 400 && len(stack) > 0; tries++ {
+		d := stack[len(stack)-1]
+		stack = stack[:len(stack)-1]
+		e.solver.send("(push 1)")
+		out := e.runOnce(d, nr.seq)
+		alts := e.alts
+		uf := e.ufApps
+		e.solver.send("(pop 1)")
+		if r, ok := out.(realised); ok {
+			f.Model = r.model
+			e.ufApps = uf
+			f.UF = e.ufTable(r.model)
+			f.Dec = decString(d)
+			return f
+		}
+		// only alternatives beyond the failure point matter: they all extend dec
+		for _, a := range alts {
+			if len(a) > len(dec) {
+				stack = append(stack, a)
+			}
+		}
+	}
+	f.Native = "UNREALISABLE: no completion of the pre-state found"
+	return f
+}
+
+func (e *Engine) runPath(dec []bool, wantSample bool) (res pathResult, alts [][]bool) {
+	e.solver.send("(push 1)")
+	out := e.runOnce(dec, 0)
 	alts = e.alts
 	res.covers = e.covers
 	res.ndec = e.pos
 	res.ticks = e.ticks["cmp"]
 	res.fails = e.fails
-	switch out.(type) {
+	switch x := out.(type) {
 	case Infeasible:
+		e.solver.send("(pop 1)")
 		res.fails = nil
 		return
 	case stopPath:
-		res.feasible = len(e.fails) > 0
+		e.solver.send("(pop 1)")
+		res.feasible = len(res.fails) > 0
+		return
+	case needRealise:
+		pdec := append([]bool{}, e.dec[:e.pos]...)
+		e.solver.send("(pop 1)")
+		f := e.realise(x, pdec)
+		res.fails = append(res.fails, f)
+		res.feasible = true
 		return
 	}
+	defer e.solver.send("(pop 1)")
 	if !e.solver.check("") {
 		res.fails = nil
 		return
 	}
 	res.feasible = true
 	if wantSample && len(e.fails) == 0 {
+		nalts := len(e.alts)
 		if e.protect(func() { e.completeThunks() }) == nil {
 			if ok, m := e.model(""); ok {
 				res.sample = &pathSample{Dec: decString(e.dec[:e.pos]), Model: m, UF: e.ufTable(m)}
@@ -171,6 +220,7 @@ func (e *Engine) runPath(dec []bool, wantSample bool) (res pathResult, alts [][]
 				}
 			}
 		}
+		e.alts = e.alts[:nalts]
 	}
 	return
 }
